@@ -310,7 +310,12 @@ Definition disp_effect (d : disp) : bool := match d with DoOk | DoErrAfter | DoS
 Definition disp_ret {A} (d : disp) (a : A) : M A :=
   match d with DoOk | DoStale => ret a | DoErrAfter | DoErr => fail EGen | DoCancel => fail ECancel end.
 
-(* ---------- primitives ---------- *)
+(* ---------- primitives ----------
+   Every adapter call has the same shape: consult the fault plan, read the world, record the call in the trace, apply the
+   effect unless the call failed before taking effect, return the answer or the error. *)
+Definition prim {A} (k : ckind) (ctx : bool) (T : disp -> world -> tok) (E : world -> world) (X : disp -> world -> M A) : M A :=
+  d <- dispatch k ctx ;; w <- get_w ;; emit (T d w) ;;; (if disp_effect d then put_w (E w) else ret tt) ;;; X d w.
+
 (* what a lagging replica answers: the previous committed version of the run when there is one, else the current one *)
 Definition stale_run (w : world) (run : N) : option record :=
   match rev (filter (fun r => N.eqb (r_run r) run) (w_hist w)) with
@@ -318,85 +323,68 @@ Definition stale_run (w : world) (run : N) : option record :=
   | _ => lookup_run w run
   end.
 
+Definition read_res (d : disp) (r : option record) : ares :=
+  match d, r with (DoOk | DoStale), Some _ => ROk | (DoOk | DoStale), None => RNotFound | DoCancel, _ => RCancel | _, _ => RErr end.
+Definition read_out (d : disp) (r : option record) : option record := match d with DoOk | DoStale => r | _ => None end.
+
 Definition p_lookup (run : N) : M (option record) :=
-  d <- dispatch KLK true ;; w <- get_w ;;
-  match d with
-  | DoOk | DoErrAfter | DoStale =>
-    let r := match d with DoStale => stale_run w run | _ => lookup_run w run end in
-    emit (TLookup KLK (Z.of_N run) (match d, r with (DoOk | DoStale), Some _ => ROk | (DoOk | DoStale), None => RNotFound | _, _ => RErr end) (match d with DoOk | DoStale => r | _ => None end)) ;;;
-    disp_ret d r
-  | _ => emit (TLookup KLK (Z.of_N run) (disp_res d) None) ;;; disp_ret d None
-  end.
+  prim KLK true
+       (fun d w => let r := match d with DoStale => stale_run w run | _ => lookup_run w run end in
+                   TLookup KLK (Z.of_N run) (read_res d r) (read_out d r))
+       (fun w => w)
+       (fun d w => disp_ret d (match d with DoStale => stale_run w run | _ => lookup_run w run end)).
 
 Definition p_latest (fid : N) : M (option record) :=
-  d <- dispatch KLT true ;; w <- get_w ;;
-  match d with
-  | DoOk | DoErrAfter =>
-    let r := latest_fid w fid in
-    emit (TLookup KLT (Z.of_N fid) (match d, r with DoOk, Some _ => ROk | DoOk, None => RNotFound | _, _ => RErr end) (match d with DoOk => r | _ => None end)) ;;;
-    disp_ret d r
-  | _ => emit (TLookup KLT (Z.of_N fid) (disp_res d) None) ;;; disp_ret d None
-  end.
+  prim KLT true
+       (fun d w => TLookup KLT (Z.of_N fid) (read_res d (latest_fid w fid)) (read_out d (latest_fid w fid)))
+       (fun w => w)
+       (fun d w => disp_ret d (latest_fid w fid)).
 
 Definition p_store (c : econfig) (r : record) : M unit :=
-  d <- dispatch KST true ;; w <- get_w ;;
-  emit (TStore (lookup_run w (r_run r)) (stamp c w r) (disp_res d)) ;;;
-  (if disp_effect d then put_w (do_store c w r) else ret tt) ;;;
-  disp_ret d tt.
+  prim KST true (fun d w => TStore (lookup_run w (r_run r)) (stamp c w r) (disp_res d)) (fun w => do_store c w r) (fun d _ => disp_ret d tt).
 
 Definition p_call (k : ckind) (ctx : bool) (args : list Z) (eff : world -> world) (out : world -> list Z) : M unit :=
-  d <- dispatch k ctx ;; w <- get_w ;;
-  emit (TCall k args (disp_res d) (if disp_effect d then out w else [])) ;;;
-  (if disp_effect d then put_w (eff w) else ret tt) ;;;
-  disp_ret d tt.
+  prim k ctx (fun d w => TCall k args (disp_res d) (if disp_effect d then out w else [])) eff (fun d _ => disp_ret d tt).
+
+Definition list_res (d : disp) : ares := match d with DoErrAfter => RErr | _ => disp_res d end.
 
 Definition p_list_outbox (limit : Z) : M (list oentry) :=
-  d <- dispatch KLO true ;; w <- get_w ;;
-  let l := firstn (Z.to_nat limit) (w_outbox w) in
-  emit (TCall KLO [limit] (match d with DoErrAfter => RErr | _ => disp_res d end) (match d with DoOk => map (fun o => Z.of_N (o_id o)) l | _ => [] end)) ;;;
-  disp_ret d l.
+  prim KLO true
+       (fun d w => TCall KLO [limit] (list_res d)
+                     (match d with DoOk | DoStale => map (fun o => Z.of_N (o_id o)) (firstn (Z.to_nat limit) (w_outbox w)) | _ => [] end))
+       (fun w => w)
+       (fun d w => disp_ret d (firstn (Z.to_nat limit) (w_outbox w))).
 
 Definition p_send (o : oentry) : M unit :=
-  d <- dispatch KSD true ;; w <- get_w ;;
-  emit (TSend o (disp_res d)) ;;;
-  (if disp_effect d then put_w (do_send w o) else ret tt) ;;;
-  disp_ret d tt.
+  prim KSD true (fun d _ => TSend o (disp_res d)) (fun w => do_send w o) (fun d _ => disp_ret d tt).
 
 Definition p_del_outbox (id : N) : M unit :=
-  d <- dispatch KDO true ;; w <- get_w ;;
-  emit (TDelOut id (disp_res d)) ;;;
-  (if disp_effect d then put_w (set_outbox w (filter (fun o => negb (N.eqb (o_id o) id)) (w_outbox w))) else ret tt) ;;;
-  disp_ret d tt.
+  prim KDO true (fun d _ => TDelOut id (disp_res d))
+       (fun w => set_outbox w (filter (fun o => negb (N.eqb (o_id o) id)) (w_outbox w))) (fun d _ => disp_ret d tt).
 
 Definition p_ack (u : eunit) (idx : nat) (e : event) : M unit :=
-  d <- dispatch KAK false ;; w <- get_w ;;
-  emit (TAck e (disp_res d)) ;;;
-  (if disp_effect d then put_w (put_cursor w u (S idx)) else ret tt) ;;;
-  disp_ret d tt.
+  prim KAK false (fun d _ => TAck e (disp_res d)) (fun w => put_cursor w u (S idx)) (fun d _ => disp_ret d tt).
 
 Definition p_list_valid (status : Z) : M (list trec) :=
-  d <- dispatch KTL true ;; w <- get_w ;;
-  let l := due_timers w status in
-  emit (TCall KTL [status; w_now w] (match d with DoErrAfter => RErr | _ => disp_res d end) (match d with DoOk => map t_id l | _ => [] end)) ;;;
-  disp_ret d l.
+  prim KTL true
+       (fun d w => TCall KTL [status; w_now w] (list_res d) (match d with DoOk | DoStale => map t_id (due_timers w status) | _ => [] end))
+       (fun w => w)
+       (fun d w => disp_ret d (due_timers w status)).
 
 Definition p_tcreate (fid run : N) (status expire : Z) : M unit :=
-  d <- dispatch KTC true ;; w <- get_w ;;
-  emit (TTCreate run status expire (disp_res d)) ;;;
-  (if disp_effect d then put_w (set_timers w (w_timers w ++ [mkTrec (w_ntid w) 0%N fid run status false expire]) (w_ntid w + 1)) else ret tt) ;;;
-  disp_ret d tt.
+  prim KTC true (fun d _ => TTCreate run status expire (disp_res d))
+       (fun w => set_timers w (w_timers w ++ [mkTrec (w_ntid w) 0%N fid run status false expire]) (w_ntid w + 1))
+       (fun d _ => disp_ret d tt).
 
 Definition p_tcomplete (id : Z) : M unit :=
-  d <- dispatch KTM true ;; w <- get_w ;;
-  emit (TTEnd KTM id (disp_res d)) ;;;
-  (if disp_effect d then put_w (set_timers w (map (fun t => if Z.eqb (t_id t) id then mkTrec (t_id t) (t_wf t) (t_fid t) (t_run t) (t_status t) true (t_expire t) else t) (w_timers w)) (w_ntid w)) else ret tt) ;;;
-  disp_ret d tt.
+  prim KTM true (fun d _ => TTEnd KTM id (disp_res d))
+       (fun w => set_timers w (map (fun t => if Z.eqb (t_id t) id then mkTrec (t_id t) (t_wf t) (t_fid t) (t_run t) (t_status t) true (t_expire t) else t) (w_timers w)) (w_ntid w))
+       (fun d _ => disp_ret d tt).
 
 Definition p_tcancel (id : Z) : M unit :=
-  d <- dispatch KTX true ;; w <- get_w ;;
-  emit (TTEnd KTX id (disp_res d)) ;;;
-  (if disp_effect d then put_w (set_timers w (filter (fun t => negb (Z.eqb (t_id t) id)) (w_timers w)) (w_ntid w)) else ret tt) ;;;
-  disp_ret d tt.
+  prim KTX true (fun d _ => TTEnd KTX id (disp_res d))
+       (fun w => set_timers w (filter (fun t => negb (Z.eqb (t_id t) id)) (w_timers w)) (w_ntid w))
+       (fun d _ => disp_ret d tt).
 
 (* attempts bookkeeping for BFailFirst: number of earlier invocations of function [code] on [run] *)
 Fixpoint att_get (l : list (Z * N * nat)) (code : Z) (run : N) : nat :=
